@@ -404,6 +404,8 @@ def check_value(eng, cm, field, v, gvariant):
     eng.require(before[1] == after[1], "global-config-rebound", "a mutable of the global config was replaced")
     gval = getattr(g, field)
     nval = getattr(new, field)
+    # the file-level config must not share the extension set with the global one: package code (figure-md) edits it in place
+    eng.require(new is g or new.enable_extensions is not g.enable_extensions, "file-config-aliases-global-extensions")
     if ok:
         eng.require(len(warnings) == 0, "valid-override-warns", repr(warnings)[:200])
         ref = getattr(cfg, field)
@@ -586,6 +588,8 @@ def replay(label, witness):
         return ("C13/merge-raises:%s" % type(e).__name__, "merge_file_level raised %r for %s=%r" % (e, field, v))
     if snapshot(g) != before:
         return ("C13/global-config-modified", "front matter %s=%r changed the global config object" % (field, v))
+    if new is not g and new.enable_extensions is g.enable_extensions:
+        return ("C13/file-config-aliases-global-extensions", "front matter %s=%r: the file-level config shares its enable_extensions set with the global config (figure-md adds to it in place)" % (field, v))
     nval, gval = getattr(new, field), getattr(g, field)
     if ok:
         ref = getattr(cfg, field)
